@@ -1392,10 +1392,15 @@ fn gen_c20(ch: &mut Choices) -> Plan {
     match mode {
         0 => {
             // keep-alive on a server: packets on a coarse grid, then silence
-            let ka = *ch.pick(&[1u16, 2, 3, 0]);
+            // (values of 6 and 8 s make a wrong factor visible beyond the 2 s of timer-wheel slack)
+            let ka = *ch.pick(&[1u16, 2, 3, 0, 6]);
             plan.peer.connect.keep_alive = ka;
             if ch.chance(1, 4) {
-                plan.cfg.hs_keepalive = Some(1 + ch.choose(3) as u16);
+                plan.cfg.hs_keepalive = Some(*ch.pick(&[1u16, 2, 3, 6, 8]));
+                if ch.chance(1, 2) {
+                    // imposed on a client that asked for more: MQTT 5 announces it in CONNACK
+                    plan.peer.connect.keep_alive = 60;
+                }
             }
             plan.tags.push("mode:keepalive".into());
             if ch.chance(1, 3) {
@@ -1416,7 +1421,7 @@ fn gen_c20(ch: &mut Choices) -> Plan {
                 timed_packet(&mut plan.peer.script, pkt, ver, t, split);
                 last_ms = t + split.map_or(0, |s| s.1);
             }
-            plan.horizon_ms = last_ms + 9_000;
+            plan.horizon_ms = last_ms + 18_000;
         }
         1 => {
             // frame read rate: a frame that stalls or trickles
